@@ -5,7 +5,8 @@ open Kv Drv Jwks
 /-
   C13 line: `C13 case=<id> skip=<0|1> ns=<K> s0=<step> … s<K-1>=<step>`; a step is
     rot:<keys>:                      keys = kid.use.keyNo.kty.known joined by '/', '-' = empty
-    start:<c>:<kid>:<alg>:<signer>:<pid>:<obs>
+    start:<c>:<kid>:<alg>:<signer>:<pid>:<obs>       (startd:… = the same, the call's context carries a DEADLINE: context.WithDeadline)
+    expire:<c>:<obs>                 the harness has seen the deadline of call <c>'s context pass (ctx.Done() closed, DeadlineExceeded)
     go:<c>:<obs> | cancel:<c>:<obs> | resp:<f>:<body class>:<status>:<wf 0|1>:<whole keys|!>:<first keys|!>:<obs> | upd:<f>:<obs> | stuck:: | crash::
   <obs> = what was observed while the step ran, joined by '/':
     h.c<c>.<point> | h.u<f>.<point> | g.u<f>.c<owner> (request reaches the endpoint) | x.u<f> (request aborted by
@@ -45,6 +46,9 @@ def parseStep (s : String) : Step :=
   | ["rot", keys, _] => { kind := "rot", keys := parseServed keys }
   | ["start", c, kid, alg, signer, pid, obs] =>
     { kind := "start", id := c.toNat?.getD 0, tok := mkTok kid alg (signer.toNat?.getD 0) (pid.toNat?.getD 0), obs := obsOf obs }
+  | ["startd", c, kid, alg, signer, pid, obs] =>
+    { kind := "start", id := c.toNat?.getD 0, tok := mkTok kid alg (signer.toNat?.getD 0) (pid.toNat?.getD 0), obs := obsOf obs, cls := "deadline" }
+  | ["expire", c, obs] => { kind := "expire", id := c.toNat?.getD 0, obs := obsOf obs }
   | ["go", c, obs] => { kind := "go", id := c.toNat?.getD 0, obs := obsOf obs }
   | ["cancel", c, obs] => { kind := "cancel", id := c.toNat?.getD 0, obs := obsOf obs }
   | ["resp", f, cls, st, wf, whole, first, obs] =>
@@ -68,6 +72,8 @@ def outcomeOf (cls : String) (pid : Nat) : Outcome :=
   | "nokey" => .noKey
   | "badsig" => .badSig
   | "ctx" => .ctxErr
+  | "ctxdl" => .ctxErr                    -- the call's own context error is `context deadline exceeded`
+  | "fe-deadline" => .fetchErr .cancelled -- the download it waited for ended with its context's deadline (`context deadline exceeded`)
   | "fe-5xx" => .fetchErr .http5xx
   | "fe-json" => .fetchErr .badJson
   | "fe-cancel" => .fetchErr .cancelled
@@ -110,6 +116,7 @@ def obsFrom (toks : List (Nat × JWS)) : List Nat → List Step → List Obs
       | "rot" => [Obs.rotate s.keys]
       | "start" => Obs.start s.id s.tok :: tail
       | "cancel" => Obs.cancel s.id :: tail
+      | "expire" => Obs.expire s.id :: tail
       | "resp" => Obs.fetchEnd s.id (some s.ans) :: tail
       | "go" => if atLock.contains s.id then Obs.ask s.id :: tail else tail
       | _ => tail
@@ -132,7 +139,7 @@ def classOf (steps : List Step) : String :=
   let f := (obs.filter (·.startsWith "g.")).length
   let flag (b : Bool) (s : String) := if b then s else ""
   let rots := (steps.filter (·.kind == "rot")).length
-  s!"n{n}f{f}" ++ flag (rots > 1) "R" ++ flag (steps.any (·.kind == "cancel")) "X"
+  s!"n{n}f{f}" ++ flag (rots > 1) "R" ++ flag (steps.any (·.kind == "cancel")) "X" ++ flag (steps.any (·.kind == "expire")) "D"
     ++ flag (steps.any fun s => s.kind == "resp" && (endOf (some s.ans)).1 != .ok) "E"
     ++ flag (steps.any fun s => s.kind == "resp" && !s.ans.wellFormed && s.ans.first.isSome) "P" ++ flag (obs.any (·.startsWith "x.")) "A"
     ++ flag (obs.any (· |>.endsWith ".ok")) "+" ++ flag (obs.any fun o => o.endsWith ".nokey" || o.endsWith ".badsig") "-"
